@@ -53,7 +53,14 @@ func caseC(seed uint64, idx int, f *chainFx) Case {
 	case idx%211 == 210: // many messages quickly
 		var msgs []Msg
 		kind := ""
-		switch r.Intn(4) {
+		switch (idx / 211) % 6 {
+		case 4: // more distinct heights than the confirm cache keeps (10240)
+			msgs = []Msg{{Code: 0x09, Payload: &Payload{Tree: nL(&Node{Rnd: 32, Seed: r.Uint64()}, &Node{Ctr: uint64(g.cur) + 10 + 1}, &Node{Rnd: 65, Seed: 1})}, Rep: 10300}}
+			kind = "confirms-for-10300-distinct-heights"
+		case 5: // more distinct heights than the block cache keeps (10240), one small orphan block per message
+			msgs = []Msg{{Code: 0x08, Payload: &Payload{Tree: nL(orphanBlock(r.Uint64(), uint64(g.cur)+10))}, Rep: 10300},
+				{Code: 0x08, Payload: &Payload{Tree: nL(orphanBlock(r.Uint64(), uint64(g.cur)+20000))}, Rep: 14}}
+			kind = "orphan-blocks-at-10300-distinct-heights"
 		case 0:
 			msgs = []Msg{{Code: 0x04, Payload: &Payload{Tree: nL(nU(0))}, Rep: 3000}}
 			kind = "status-requests"
@@ -312,4 +319,12 @@ func caseD(seed uint64, idx int, f *chainFx) Case {
 	}
 	o.Resign = len(kind) > 9 && kind[len(kind)-9:] == "-resigned"
 	return Case{S: "d", Idx: idx, Kind: kind, Obj: o}
+}
+
+// orphanBlock is a minimal decodable block with an unknown parent whose height counts up
+// from base with every repetition of the message.
+func orphanBlock(seed uint64, base uint64) *Node {
+	h := nL(&Node{Rnd: 32, Seed: seed}, &Node{Rnd: 20, Seed: seed + 1}, &Node{Rnd: 32, Seed: seed + 2}, &Node{}, &Node{}, &Node{Ctr: base + 1},
+		nU(105000000), nU(0), nU(1700000100), &Node{Rnd: 65, Seed: seed + 3}, &Node{}, &Node{})
+	return nL(h, nL(), nL(), nL(), nL())
 }
